@@ -8,8 +8,11 @@
 package main
 
 import (
+	"context"
+	"encoding/json"
 	"fmt"
 	"os"
+	"os/exec"
 	"path/filepath"
 	"regexp"
 	"runtime"
@@ -41,6 +44,7 @@ var dir string // scratch directory with import targets
 // because a spinning goroutine cannot be stopped.
 func parseGuarded(rep *kit.Report, name, text string) (r parseResult) {
 	curInput.Store(&text)
+	curName.Store(&name)
 	curStart.Store(time.Now().UnixNano())
 	defer curStart.Store(0)
 	defer func() {
@@ -56,7 +60,60 @@ var (
 	curStart atomic.Int64
 	curInput atomic.Pointer[string]
 	curKind  atomic.Pointer[string]
+	curName  atomic.Pointer[string]
 )
+
+// confirmHang parses one input in a fresh process and reports whether that did not finish within 60 s.
+func confirmHang(name, text string) bool {
+	b, _ := json.Marshal(map[string]string{"name": name, "text": text})
+	f, err := os.CreateTemp("", "c10-confirm-*.json")
+	if err != nil {
+		return false
+	}
+	f.Write(b)
+	f.Close()
+	defer os.Remove(f.Name())
+	ctx, cancel := context.WithTimeout(context.Background(), 75*time.Second)
+	defer cancel()
+	cmd := exec.CommandContext(ctx, os.Args[0], "-tier", "quick", "-worker", "0", "-nworkers", "1")
+	cmd.Env = append(os.Environ(), "C10_CONFIRM="+f.Name())
+	cmd.WaitDelay = 2 * time.Second
+	out, _ := cmd.CombinedOutput()
+	if strings.Contains(string(out), "CONFIRM-DONE") {
+		return false
+	}
+	return ctx.Err() != nil || strings.Contains(string(out), "CONFIRM-HANG")
+}
+
+// confirmMode is the other side of confirmHang.
+func confirmMode(file string) {
+	b, _ := os.ReadFile(file)
+	var in map[string]string
+	json.Unmarshal(b, &in)
+	done := make(chan struct{})
+	go func() {
+		defer func() { recover(); close(done) }()
+		casketfile.Parse(in["name"], strings.NewReader(in["text"]), nil)
+	}()
+	t := time.NewTimer(60 * time.Second)
+	for {
+		select {
+		case <-done:
+			fmt.Println("CONFIRM-DONE")
+			os.Exit(0)
+		case <-t.C:
+			fmt.Println("CONFIRM-HANG")
+			os.Exit(3)
+		case <-time.After(200 * time.Millisecond):
+			var m runtime.MemStats
+			runtime.ReadMemStats(&m)
+			if m.HeapAlloc > 2<<30 {
+				fmt.Println("CONFIRM-HANG (memory)")
+				os.Exit(3)
+			}
+		}
+	}
+}
 
 func startWatchdog(rep *kit.Report) {
 	go func() {
@@ -73,8 +130,14 @@ func startWatchdog(rep *kit.Report) {
 				if k := curKind.Load(); k != nil {
 					kind = *k
 				}
-				rep.Violation("C10/"+kind+"/non-termination", "Parse did not return within 10 s / 1 GiB", strCase{*curInput.Load(), os.Getenv("V"), "hang"})
-				rep.Capped("worker stopped after a non-terminating parse")
+				// believed only if the same input does not parse within 60 s in two fresh processes either
+				// (an overloaded machine can stall a process for seconds)
+				if confirmHang(*curName.Load(), *curInput.Load()) && confirmHang(*curName.Load(), *curInput.Load()) {
+					rep.Violation("C10/"+kind+"/non-termination", "Parse did not return within 10 s / 1 GiB, and not within 60 s in two fresh processes", strCase{*curInput.Load(), os.Getenv("V"), "hang"})
+				} else {
+					rep.Class("stall-not-reproduced-in-a-fresh-process")
+				}
+				rep.Capped("worker stopped after a parse that did not return in 10 s")
 				rep.Finish()
 			}
 		}
@@ -653,6 +716,9 @@ func main() {
 		rep.Assume("environment values never contain placeholder syntax; glob imports limited to one pattern; import targets live next to the Casketfile")
 		rep.RunWorkers(16)
 		rep.Finish()
+	}
+	if f := os.Getenv("C10_CONFIRM"); f != "" {
+		confirmMode(f)
 	}
 	runtime.GOMAXPROCS(2) // (a worker parses one text at a time; 16 workers run side by side)
 	dir = kit.TempDir("c10")
